@@ -245,10 +245,12 @@ type WideParams struct {
 	NoFieldPer int // docs with i%NoFieldPer==1 have no field "a" at all (0: never)
 	SecondDV   bool
 	FreqMod    int
+	RepeatA    int // >0: docs with i%RepeatA==0 carry a second instance of field "a" listing the dense term again
+	DenseExact int // >0: the dense term occurs in exactly the first DenseExact documents that have field "a" (an exact multiple of 1024: the boundary of the adaptive chunk-count formula)
 }
 
 func GenWide(t *rapid.T) WideParams {
-	p := WideParams{N: rapid.SampledFrom([]int{1025, 1100, 2047, 2048, 2049, 2500, 3100}).Draw(t, "N")}
+	p := WideParams{N: rapid.SampledFrom([]int{600, 1023, 1024, 1025, 1100, 2047, 2048, 2049, 2500, 3100}).Draw(t, "N")}
 	p.DenseSkip = rapid.SampledFrom([]int{0, 2, 3, 7, 50}).Draw(t, "denseSkip")
 	if p.DenseSkip > 0 {
 		p.DenseOff = rapid.IntRange(0, p.DenseSkip-1).Draw(t, "denseOff")
@@ -258,6 +260,10 @@ func GenWide(t *rapid.T) WideParams {
 	p.NoFieldPer = rapid.SampledFrom([]int{0, 2, 9}).Draw(t, "noFieldPer")
 	p.SecondDV = rapid.Bool().Draw(t, "secondDV")
 	p.FreqMod = rapid.IntRange(1, 4).Draw(t, "freqMod")
+	p.RepeatA = rapid.SampledFrom([]int{0, 0, 1, 2, 3}).Draw(t, "repeatA")
+	if p.N >= 1024 && rapid.IntRange(0, 3).Draw(t, "denseExact") == 0 {
+		p.DenseExact = 1024 * rapid.IntRange(1, p.N/1024).Draw(t, "denseExactK")
+	}
 	return p
 }
 
@@ -268,6 +274,7 @@ func (p WideParams) String() string { return fmt.Sprintf("wide%+v", widePlain(p)
 func (p WideParams) Batch(sc *Scenario) Batch {
 	b := make(Batch, p.N)
 	dvA := sc.Schema["a"] != dvNever
+	denseSoFar := 0
 	for i := range b {
 		if p.NoFieldPer > 0 && i%p.NoFieldPer == 1 {
 			if p.SecondDV {
@@ -277,7 +284,12 @@ func (p WideParams) Batch(sc *Scenario) Batch {
 			continue
 		}
 		fa := Field{Name: "a", DV: dvA}
-		if p.DenseSkip == 0 || i%p.DenseSkip != p.DenseOff {
+		hasDense := p.DenseSkip == 0 || i%p.DenseSkip != p.DenseOff
+		if p.DenseExact > 0 {
+			hasDense = denseSoFar < p.DenseExact
+		}
+		if hasDense {
+			denseSoFar++
 			tm := Term{T: "dense", Freq: 1 + i%p.FreqMod}
 			if p.DenseLocs > 0 && i%p.DenseLocs == 0 {
 				tm.Locs = []Loc{{Field: "", Pos: i, Start: i * 3, End: i*3 + 5}}
@@ -291,6 +303,10 @@ func (p WideParams) Batch(sc *Scenario) Batch {
 			fa.Len += 2
 		}
 		b[i].Fields = append(b[i].Fields, fa)
+		if p.RepeatA > 0 && i%p.RepeatA == 0 && len(fa.Terms) > 0 && fa.Terms[0].T == "dense" {
+			// a multi-valued field: the same term again in a second instance of the field
+			b[i].Fields = append(b[i].Fields, Field{Name: "a", DV: dvA, Len: 1, Terms: []Term{{T: "dense", Freq: 1}}})
+		}
 		if i%500 == 7 {
 			b[i].Fields = append(b[i].Fields, Field{Name: "title", Store: true, Value: fmt.Sprintf("doc-%d", i)})
 		}
